@@ -57,7 +57,7 @@ def load_model(repo='/repo'):
     all_enums = {}
     for h in inv['headers'].values():
         all_enums.update(h['enums'])
-    model = {'spec': spec, 'inv': inv, 'fmts': {}, 'enums': all_enums}
+    model = {'spec': spec, 'inv': inv, 'fmts': {}, 'enums': all_enums, 'notes': []}
     claimed = set()
     for key, fs in spec['formats'].items():
         f = Fmt()
@@ -122,13 +122,26 @@ def load_model(repo='/repo'):
             if low in rows:
                 f.enum_rows[ename] = (low,) + rows[low]
             elif re.match(r'^reserved(_\d+)?$', low):
-                if nres >= len(rsv_enum):
-                    raise GenError('%s: enumerator %s has no reserved row in the oracle' % (key, ename))
-                r = f.rsv[rsv_enum[nres]]
-                f.enum_rows[ename] = ('rsv%d' % rsv_enum[nres], r[0], r[1])
+                if nres < len(rsv_enum):
+                    ri = rsv_enum[nres]
+                else:
+                    # a RESERVED enumerator the oracle does not list (newly exposed reserved bits): it designates the next
+                    # reserved gap of the wire format, in bit order, that no enumerator designates yet
+                    used = set(rsv_enum[:nres]) | set(int(v[0][3:]) for v in f.enum_rows.values() if v[0].startswith('rsv'))
+                    free = sorted((i for i in range(len(f.rsv)) if i not in used), key=lambda i: f.rsv[i][0])
+                    if not free:
+                        model['notes'].append('%s: enumerator %s designates no reserved gap of the wire format: no value obligation (memory-safety obligations only)' % (key, ename))
+                        nres += 1
+                        continue
+                    ri = free[0]
+                    model['notes'].append('%s: enumerator %s is not in the oracle; taken to designate reserved gap %d (bits %d..%d)' % (key, ename, ri, f.rsv[ri][0], f.rsv[ri][0] + f.rsv[ri][1] - 1))
+                r = f.rsv[ri]
+                f.enum_rows[ename] = ('rsv%d' % ri, r[0], r[1])
                 nres += 1
             else:
-                raise GenError('%s: enumerator %s has no oracle row' % (key, ename))
+                # a field the oracle (the standard's layout) does not know: nothing can be claimed about its value;
+                # the memory-safety obligations of GetField/SetField (all identifiers below MAX) still cover it
+                model['notes'].append('%s: enumerator %s has no oracle row: no value obligation (memory-safety obligations only)' % (key, ename))
         # ---- functions
         f.getters, f.setters = [], []
         f.init = f.getfield = f.setfield = None
@@ -155,7 +168,8 @@ def load_model(repo='/repo'):
                 fa = fs.get('func_alias', {})
                 row = fa.get(m.group(2), camel_to_snake(m.group(2)))
                 if row not in rows:
-                    raise GenError('%s: function %s maps to row %r which the oracle does not have' % (key, n, row))
+                    model['notes'].append('%s: public function %s maps to no oracle row (%r): not under contract' % (key, n, row))
+                    continue
                 if m.group(1) == 'Get':
                     if len(p['params']) != 1:
                         raise GenError('%s: getter %s has unexpected parameters' % (key, n))
@@ -184,7 +198,7 @@ def load_model(repo='/repo'):
             if p['inline']:
                 continue
             if p['name'] not in claimed and p['name'] not in SPECIALS:
-                raise GenError('public function %s (%s) has no oracle row / contract' % (p['name'], hn))
+                model['notes'].append('public function %s (%s) has no oracle row / contract: not under contract' % (p['name'], hn))
     return model
 
 
@@ -449,6 +463,14 @@ def mk_job(model, f, name, enforce, replace, call, decls, kind, owners, function
     tu = TU()
     tu.add(PRELUDE)
     enf = enforce.split('/')[-1] if enforce else None
+    # the two generic routines are the only library functions with loops: they are ALWAYS replaced by their contracts, also
+    # where the function under verification does not call them today (a wrapper that starts to read before it writes, a
+    # setter that consults a sibling getter), so that such a change is verified instead of running into an unwound loop
+    replace = list(replace)
+    have = set(x.split('/')[0] for x in replace) | set([enforce.split('/')[0]] if enforce else [])
+    for extra in ('Avtp_GetField', 'Avtp_SetField'):
+        if extra not in have:
+            replace.append(extra)
     needed = set()
     for x in [enforce] + list(replace):
         if x:
@@ -545,14 +567,14 @@ def legacy_jobs(model, config='le'):
         rows = {e: [r[1], r[2]] for e, r in f.enum_rows.items()}
         for a, r in lg.get('aliases', {}).items():
             rows[a] = list(f.rows[r])
-        jobs.append(mk_job(model, f, '%s/iface' % lg['get'], lg['get'], [f.getfield['name']],
+        jobs.append(mk_job(model, f, '%s/iface' % lg['get'], lg['get'], [f.getfield['name'], f.setfield['name']],
                            '%s(pdu, field, val);' % lg['get'], '    %s pdu; %s field; %s *val;' % (pg['params'][0]['type'], fld_t, vt),
                            'legacy-get', OW, lg['get'], extra_tu=ltu,
                            replay=rp(kind='legacy-get', func=lg['get'], vt=vt, MAX=f.MAX, rows=rows, E=fld_t), config=config))
         jobs.append(mk_job(model, f, '%s/invalid' % lg['get'], '%s/vp_inval_%s' % (lg['get'], lg['get']), [f.getfield['name']],
                            '%s(pdu, field, val);' % lg['get'], '    %s pdu; %s field; %s *val;' % (pg['params'][0]['type'], fld_t, vt),
                            'legacy-get-invalid', OWI, lg['get'], extra_tu=ltu, config=config))
-        jobs.append(mk_job(model, f, '%s/iface' % lg['set'], lg['set'], [f.setfield['name']],
+        jobs.append(mk_job(model, f, '%s/iface' % lg['set'], lg['set'], [f.setfield['name'], f.getfield['name']],
                            '%s(pdu, field, val);' % lg['set'], '    %s pdu; %s field; %s val;' % (ps['params'][0]['type'], fld_t, vt),
                            'legacy-set', OW, lg['set'], extra_tu=ltu,
                            replay=rp(kind='legacy-set', func=lg['set'], vt=vt, MAX=f.MAX, rows=rows, E=fld_t), config=config))
